@@ -87,6 +87,31 @@ def h_ctor_pair(ctx, skeleton):
         ctx.check("equal-urls-equal-hash", hash(a) == hash(b))
 
 
+def h_ctor_order(ctx, skeleton):
+    """for URLs made by the constructor, the ordering agrees with a comparison of freshly built twins (no stale memo)"""
+    P = ctx.P
+    ta = U.text(ctx, skeleton, prefix="a")
+    tb = U.text(ctx, skeleton, prefix="b")
+    ra = call(P.URL, ta)
+    rb = call(P.URL, tb)
+    ctx.observe("parse", (ra[0], rb[0]))
+    if ra[0] != "ok" or rb[0] != "ok":
+        return
+    a, b = ra[1], rb[1]
+    ta2 = P.url.from_parts_uncached(a._scheme, a._netloc, a._path, a._query, a._fragment)
+    tb2 = P.url.from_parts_uncached(b._scheme, b._netloc, b._path, b._query, b._fragment)
+    for nm, f in (("lt", lambda x, y: x < y), ("le", lambda x, y: x <= y), ("gt", lambda x, y: x > y), ("ge", lambda x, y: x >= y), ("eq", lambda x, y: x == y)):
+        r1 = call(f, a, b)
+        r2 = call(f, ta2, tb2)
+        ctx.check("ordering-of-parsed-urls-equals-ordering-of-their-parts:" + nm, r1[0] == "ok" and r2[0] == "ok" and r1[1] == r2[1], nm)
+    eq = call(lambda: a == b)[1]
+    lt = call(lambda: a < b)[1]
+    gt = call(lambda: a > b)[1]
+    ctx.check("exactly-one-of-lt-eq-gt", (int(lt) + int(eq) + int(gt)) == 1, (lt, eq, gt))
+    st = a.__getstate__()
+    ctx.check("pickle-state-is-the-five-parts", sym_eq(tuple(st[0]), (a._scheme, a._netloc, a._path, a._query, a._fragment)))
+
+
 def h_foreign(ctx, n):
     P = ctx.P
     t = ctx.str("t", n)
@@ -115,5 +140,7 @@ def families(tier):
         fams.append(Family("mixed-%d" % i, h_pair, dict(la=la, lb=lb)))
     for i, sk in enumerate([["http://h", ("in", "/a?#"), ("in", "/a?#")], ["//h:80", ("in", "/a")], ["http://h/a", ("ns",), "?x"]]):
         fams.append(Family("ctor-pair-%d" % i, h_ctor_pair, dict(skeleton=sk)))
+    for i, sk in enumerate([["http://h/p?q#", ("ns",)], ["http://h/", ("ns",), "?", ("ns",)], ["http://u", ("in", "aA %~"), "@h/#%", ("in", "aAfF0"), ("in", "aAfF0")]]):
+        fams.append(Family("ctor-order-%d" % i, h_ctor_order, dict(skeleton=sk)))
     fams.append(Family("foreign", h_foreign, dict(n=1)))
     return fams
